@@ -7,6 +7,7 @@ import (
 	"fmt"
 	"io"
 	"io/ioutil"
+	"math"
 	"net/http"
 	"path"
 	"strconv"
@@ -593,7 +594,12 @@ func contextFromHeaders(parent context.Context, h http.Header) (context.Context,
 				unit = time.Nanosecond
 			}
 			if unit != 0 {
-				ctx, cancel = context.WithTimeout(ctx, time.Duration(timeoutVal)*unit)
+				// saturate instead of wrapping around for huge values
+				d := time.Duration(math.MaxInt64)
+				if timeoutVal <= math.MaxInt64/int64(unit) {
+					d = time.Duration(timeoutVal) * unit
+				}
+				ctx, cancel = context.WithTimeout(ctx, d)
 			}
 		}
 	}
